@@ -452,6 +452,13 @@ def np_broadcast_to(ex, args, kw, st):
     raise Unsupported('np.broadcast_to of this value')
 
 
+def np_arange(ex, args, kw, st):
+    if len(args) != 1:
+        raise Unsupported('np.arange with start/step')
+    n = args[0]
+    return SSeq(num_term(n), lambda i: num_term(i), 'int')
+
+
 def np_atleast_2d(ex, args, kw, st):
     v = args[0]
     if isinstance(v, SArr) and v.ndim == 2:
@@ -754,6 +761,30 @@ def cl_forall(ex, args, kw, st):
     return z3.ForAll(vs, f)
 
 
+def cl_exists(ex, args, kw, st):
+    """exists(lambda k: body, (lo, hi), ...): bounded existential over integers."""
+    fn = args[0]
+    ranges = list(args[1:])
+    n = len(ranges) if ranges else 1
+    vs = [z3.Int(f'bv!{next(_bv)}') for k in range(n)]
+    guard = []
+    for v, r in zip(vs, ranges):
+        if r is None:
+            continue
+        lo, hi = r
+        if lo is not None:
+            guard.append(v >= num_term(lo))
+        if hi is not None:
+            guard.append(v < num_term(hi))
+    pol = getattr(ex, 'polarity', 0)
+    ex.polarity = 0
+    try:
+        body = to_bool(fn.fn(*vs))
+    finally:
+        ex.polarity = pol
+    return z3.Exists(vs, z3.And(*(guard + [body])))
+
+
 def cl_forall_real(ex, args, kw, st):
     """forall_real(lambda a, b: body): unbounded quantifier over reals (mathematical lemmas about
     uninterpreted functions, e.g. monotonicity of erf)."""
@@ -823,14 +854,14 @@ TABLE = {
     'np.count_nonzero': np_count_nonzero, 'np.sum': np_sum, 'np.nansum': np_sum, 'np.any': np_any, 'np.all': np_all,
     'np.diff': np_diff, 'np.argmax': np_argmax_first_true,
     'PchipInterpolator': p_interp('PchipInterpolator'), 'np.ndim': np_ndim,
-    'forall_real': cl_forall_real, 'np.broadcast_to': np_broadcast_to, 'np.atleast_2d': np_atleast_2d, 'np.clip': np_clip, 'spline': cl_uf('spline'),
+    'forall_real': cl_forall_real, 'np.arange': np_arange, 'np.broadcast_to': np_broadcast_to, 'np.atleast_2d': np_atleast_2d, 'np.clip': np_clip, 'spline': cl_uf('spline'),
     'np.deg2rad': p_uf1('deg2rad'), 'deg2rad_': cl_uf('deg2rad'), 'exp_': cl_uf('exp'),
     'erf_': cl_uf('erf'), 'sin_': cl_uf('sin'), 'cos_': cl_uf('cos'), 'sqrt_': cl_uf('sqrt'), 'asin_': cl_uf('asin'),
     'pi_': None,
     'np.float32': np_identity, 'np.float64': np_identity,
     'warnings.warn': p_warn, 'warnings.simplefilter': p_warn, 'warnings.filterwarnings': p_warn,
     # contract language
-    'implies': cl_implies, 'iff': cl_iff, 'forall': cl_forall, 'is_none': cl_is_none,
+    'implies': cl_implies, 'iff': cl_iff, 'forall': cl_forall, 'exists': cl_exists, 'is_none': cl_is_none,
     'is_int': cl_is_int, 'ite': cl_ite, 'sq': cl_sq, 'isfinite_at': cl_isfinite_at,
     'sel': cl_part('pred'), 'val': cl_part('val'), 'shape_of': cl_shape_of, 'is_nan': cl_is_nan,
     'kind_of': cl_kind_of,
